@@ -186,7 +186,7 @@ pub struct RouteCase {
     pub route: u8,
 }
 
-fn keep_short(spec: &mut TwinSpec) {
+pub fn keep_short(spec: &mut TwinSpec) {
     for item in spec.items.iter_mut() {
         let m = match item {
             Item::Bench(b) => &mut b.meta,
@@ -247,7 +247,7 @@ pub struct BuilderCliCase {
 }
 
 /// Per field: flag, else environment, else builder.
-fn merge(flags: &OptSpec, env: &OptSpec, builder: &OptSpec) -> OptSpec {
+pub fn merge(flags: &OptSpec, env: &OptSpec, builder: &OptSpec) -> OptSpec {
     let mut r = flags.clone();
     // An empty list cannot be passed as a flag or a variable (it is not
     // passed at all); the builder can set one.
@@ -309,6 +309,8 @@ fn groups(g: &mut Groups) {
     g.prop("loop", 32_000, 1_600_000, || case(), check_case);
     g.prop("twin_routes", 8_000, 800_000, || route_case(), check_route);
     g.prop("builder_then_cli", 800, 40_000, || builder_cli_case(), check_builder_cli);
+    // The same route with the command line parsed in this process (hook `__verif::cli`).
+    g.prop("builder_then_cli_inproc", 8_000, 400_000, || builder_cli_case(), |c| twin::with_cli_in_process(|| check_builder_cli(c)));
     g.enumerate(
         "golden",
         |_| {
